@@ -1068,7 +1068,13 @@ def translate_attr_parser():
     `ParsedSylviaAttributes::new` with `match_attribute` (what is collected from the attributes of an item, in which order,
     which repetitions are refused). Diagnostics are appended to a ghost field `__diags` of the object being built."""
     rel = "parser/attributes/mod.rs"
-    kv = fetch_ast(os.path.join(common.REPO, "sylvia-derive", "src", *rel.split("/")))
+    src_path = os.path.join(common.REPO, "sylvia-derive", "src", *rel.split("/"))
+    kv = fetch_ast(src_path)
+    # `Self::default()` is given the meaning of `#[derive(Default)]`: the struct must derive it and not implement it by hand
+    text = open(src_path).read()
+    md = re.search(r"#\[derive\(([^)]*)\)\]\s*(?:#\[[^\]]*\]\s*)*pub\s+struct\s+ParsedSylviaAttributes\b", text)
+    if not md or "Default" not in [x.strip() for x in md.group(1).split(",")] or re.search(r"impl\s+Default\s+for\s+ParsedSylviaAttributes\b", text):
+        raise TranslateError("%s: ParsedSylviaAttributes does not derive Default" % rel)
 
     def setup_sv(t):
         t.interior = True
